@@ -41,7 +41,9 @@ theorem scan_eq (y0 y1 : K) (l0 l1 r0 r1 : List K) :
       let dx1 := nth0 r1 - nth0 l1
       let dvdx := if dx0 * dx0 < dx1 * dx1 then dvdtL l1 r1 (1 / dx1) else dvdtL l0 r0 (1 / dx0)
       scanRows dl (nth0 dr) dvdx (HasToNat.toNatSat (roundUpHalf y1 - roundUpHalf y0)) (roundUpHalf y0)
-        (lerpL l0 (stepL l0 dl) (roundUpHalf y0 - y0)) (nth0 r0 + nth0 dr * (roundUpHalf y0 - y0)) := rfl
+        (lerpL l0 (stepL l0 dl) (roundUpHalf y0 - y0)) (nth0 r0 + nth0 dr * (roundUpHalf y0 - y0)) := by
+  -- the model guards the reciprocal (`recip0`); over a field that is `1 / dx`
+  simp only [scan, recip0_eq]
 
 /-- number of rows: ⌊y1+½⌋ − ⌊y0+½⌋ (saturating at 0) -/
 theorem scan_rowcount (y0 y1 : K) :
